@@ -22,8 +22,21 @@ import vlib
 def make_inputs(rng, kind):
     out = []
     if kind == "apng":
-        for _ in range(3):
-            out.append(chunkgen.gen_apng(rng)[0])
+        for nfr in (1, 3, 4):          # always animated: the frames are re-encoded on the pool too
+            out.append(chunkgen.gen_apng(rng, extra_frames=nfr)[0])
+        return out
+    if kind == "faulty":
+        # calls that FAIL after they have started (an animated image whose last frame's data is cut short: the default image
+        # is optimised, then re-encoding that frame fails), and one that fails at once: error returns must leave nothing behind
+        import struct
+        import zlib
+        from props import c05, c13
+        for nfr in (2, 3):
+            b = c13.apng_smooth(rng, nfr, 20, 12)
+            off, ln, name = [sp for sp in c05.chunk_spans(b) if sp[2] == b"fdAT"][-1]
+            body = b"fdAT" + b[off + 8:off + 8 + 4 + (ln - 4) // 2]
+            out.append(b[:off] + struct.pack(">I", len(body) - 4) + body + struct.pack(">I", zlib.crc32(body) & 0xffffffff) + b[off + 12 + ln:])
+        out.append(b"\x89PNG\r\n\x1a\n" + bytes(20))
         return out
     if kind == "big":
         # one very large (64 MiB of raw data and a little more) but trivially compressible image: size-dependent code paths
@@ -69,7 +82,7 @@ def run(rep):
     jobs = []
     try:
         files = {}
-        for kind in ("png", "apng", "big"):
+        for kind in ("png", "apng", "big", "faulty"):
             ins = make_inputs(rng, kind)
             files[kind] = os.path.join(tmp, kind + ".txt")
             open(files[kind], "w").write("\n".join(x.hex() for x in ins) + "\n")
@@ -82,6 +95,10 @@ def run(rep):
                                 continue
                             jobs.append((site, th, cc, o, kind, sd))
 
+        # failing calls, at least as many as the pool has threads, from every call site; the pool and later calls must be unaffected
+        for site in sites:
+            for th, cc in ((1, 3), (2, 4), (3, 9)):
+                jobs.append((site, th, cc, "-", "faulty", 0))
         # very large input: outside caller on a wide pool, and from inside a one-thread pool
         jobs.append(("plain", 16, 1, "preset=0", "big", 0))
         jobs.append(("install", 1, 1, "preset=0", "big", 0))
